@@ -25,6 +25,10 @@ type Ctx struct {
 	// choices binds call instructions of Fn to the callee alternative taken
 	// (set while collecting gates along one success alternative).
 	choices map[ssa.CallInstruction]*Alt
+	// branch fixes the outcome of tests of Fn on this alternative (region
+	// splitting: a conditional region that contains a checking loop is
+	// analysed once per outcome of its guard).
+	branch map[*ssa.If]bool
 }
 
 func (c *Ctx) String() string {
@@ -71,6 +75,7 @@ type Engine struct {
 	unknown  map[*ssa.Function]*Ctx
 	memo     map[evalKey]*Term
 	inprog   map[evalKey]bool
+	branchCtx map[branchKey]*Ctx
 	foldPH   map[evalKey]*Term // accumulator placeholders while a loop-carried value is being unrolled
 	foldHits int
 	getters  map[*ssa.Function]string // nil-safe getter -> field name ("" = not a getter)
@@ -881,6 +886,7 @@ func (e *Engine) inlineCall(call ssa.CallInstruction, cal *ssa.Function, ctx *Ct
 		sub = e.Enter(ctx, call, cal)
 	}
 	var alts []*Term
+	var rets []*ssa.BasicBlock
 	g := e.GraphOf(cal, sub)
 	for _, b := range cal.Blocks {
 		if !g.Reach[b.Index] || g.CutAt[b.Index] >= 0 {
@@ -901,9 +907,33 @@ func (e *Engine) inlineCall(call ssa.CallInstruction, cal *ssa.Function, ctx *Ct
 			continue // non-error results of a failing return are never used
 		}
 		alts = append(alts, e.Eval(ret.Results[i], sub))
+		rets = append(rets, b)
 	}
 	if len(alts) == 0 {
 		return e.mk(OpUnknown, "noreturn:"+shortFn(cal), call.Value())
+	}
+	// `if c { return a }; return b`: keep the selecting condition
+	if len(alts) == 2 && len(cal.Blocks) > 0 {
+		d := cal.Blocks[0]
+		if iff, ok := d.Instrs[len(d.Instrs)-1].(*ssa.If); ok && len(g.Succ[0]) == 2 && d.Succs[0] != d.Succs[1] {
+			side := func(r *ssa.BasicBlock) int {
+				for k := 0; k < 2; k++ {
+					s := d.Succs[k]
+					if len(s.Preds) == 1 && (s == r || s.Dominates(r)) {
+						return k
+					}
+				}
+				return -1
+			}
+			s0, s1 := side(rets[0]), side(rets[1])
+			if s0 >= 0 && s1 >= 0 && s0 != s1 {
+				vt, vf := alts[0], alts[1]
+				if s0 == 1 {
+					vt, vf = vf, vt
+				}
+				return e.mk(OpIte, "", call.Value(), e.Eval(iff.Cond, sub), vt, vf)
+			}
+		}
 	}
 	return e.mk(OpPhi, "", call.Value(), alts...)
 }
